@@ -12,7 +12,7 @@
 (***************************************************************************)
 EXTENDS Engine
 
-CONSTANTS MaxSends, MaxCuts, MaxRestarts, MaxFlight, MaxTimers
+CONSTANTS MaxSends, MaxCuts, MaxRestarts, MaxFlight, MaxTimers, Chunk
 
 VARIABLES eng,        \* [A, B] -> Engine record
           net,        \* [AB, BA] -> sequence of outbound records in flight ("CLOSE" = the sender closed)
@@ -24,7 +24,7 @@ Nodes == {"A", "B"}
 Other(n) == IF n = "A" THEN "B" ELSE "A"
 Dir(n) == IF n = "A" THEN "AB" ELSE "BA"           \* queue that node n writes to
 
-CfgOf(n) == [DefaultCfg EXCEPT !.role = IF n = "A" THEN "init" ELSE "acc"]
+CfgOf(n) == [DefaultCfg EXCEPT !.role = IF n = "A" THEN "init" ELSE "acc", !.chunk = Chunk]     \* Chunk: ResendRequestChunkSize of both
 
 \* an outbound record as the peer receives it
 Conv(o) == [t |-> o.t, seq |-> o.seq, seqc |-> "ok", pd |-> IF o.pd THEN "Y" ELSE "none", ost |-> IF o.pd THEN "ok" ELSE "none",
